@@ -38,14 +38,26 @@ typed families judged on the values themselves, because the recorded serde calls
 own `Serialize` impl is the broken code are already lossy (M19, M24); C08 keeps its in-memory oracle
 running after a known class was seen on a sequence (before, the rest of the sequence went
 unchecked) and has containers of four and more elements among its hand-written layouts (M20, first
-caught by the correspondence only); C16 gained the rest of the Entry API (M21).
-Second-round changes (M21-M25) were written by fresh sub-agents that were told which idea the first
-round had already used for that property.
+caught by the correspondence only); C16 gained the rest of the Entry API (M21); C14's harness checks
+that a span synthesized for a table without one of its own covers every entry below it, on
+generated interleaved layouts (M27); C17/C13 gained an externally tagged enum as document root
+(M38); C08 gained wide documents (32-90 interleaved tables) edited by appending array-of-tables
+elements (M39: the printer's position sort must be stable); C18's battery reports whether `==` on
+toml::Table depends on insertion order (M40).
+Second-round changes (M21-M40) were written by fresh sub-agents that were told which idea the first
+round had already used for that property. Of the 20 second-round changes 13 were caught at once by
+the check of their own property, 1 only by checks of neighbouring properties (M24), and 6 were
+missed by their own property's check at first (M19/C07 in round one, M21, M27, M38, M39, M40) and
+led to the strengthenings above; all 40 are caught now.
 """
 p = os.path.join(ROOT, "DESIGN.md")
 s = open(p).read()
-k = s.find("\n\n---------------------------------------------------------------------------------------------------\n\n## 13.")
+SEP = "\n\n---------------------------------------------------------------------------------------------------\n\n"
+k = s.find(SEP + "## 13.")
+tail = ""
 if k >= 0:
+    k14 = s.find(SEP + "## 14.", k)
+    tail = s[k14:] if k14 >= 0 else ""
     s = s[:k]
-open(p, "w").write(s.rstrip("\n") + "\n" + text)
+open(p, "w").write(s.rstrip("\n") + "\n" + text.rstrip("\n") + "\n" + tail)
 print(len(rows), "rows")
